@@ -31,7 +31,8 @@ RULE = (
 )
 MUST_HIT = ["first_interrupted_by_exception", "abandoned_generator_closed_mid_run", "buffer_position_set_while_closed",
             "first_open_token", "first_after_cut", "first_init_phase", "first_gen_partial", "first_gen_unstarted",
-            "split_region", "split_bytes", "split_recorder", "validator", "buffer_reopen"]
+            "split_region", "split_bytes", "split_recorder", "validator", "buffer_reopen", "recorder_pass_abandoned",
+            "abandoned_generator_finalised_after_next_split"]
 ASSUMPTIONS = ["fresh-object output is the reference (judged by C01-C07)"]
 BOUNDS = {"quick": dict(L1=6, L2=5, n=400), "thorough": dict(L1=8, L2=7, n=8000)}
 EXH_PARAMS = ([1, 2, 1, 0, 0, 0], [2, 2, 1, 0, 0, 0], [2, 3, 1, 0, 0, 4], [1, 3, 2, 2, 1, 0], [2, 3, 0, 0, 0, 2],
@@ -183,6 +184,7 @@ def check_split(case, rec):
     kw = dict(min_dur=mind, max_dur=maxd, max_silence=sild, drop_trailing_silence=win[3], strict_min_dur=win[4],
               energy_threshold=thr, use_channel=r.get("uc"))
     runs = []
+    extra = set()
     if how == "region":
         obj = auditok.AudioRegion(data, sr, sw, ch)
         for i in range(case["times"]):
@@ -193,16 +195,47 @@ def check_split(case, rec):
         for _ in range(case["times"]):
             runs.append(list(auditok.split(data, analysis_window=aw, sampling_rate=sr, sample_width=sw, channels=ch, **kw)))
     elif how == "recorder":
-        recd = auditok.Recorder(data, block_dur=aw, sampling_rate=sr, sample_width=sw, channels=ch)
-        for _ in range(case["times"]):
-            runs.append(list(auditok.split(recd, **kw)))
+        rkw = {}
+        vis = data
+        if case.get("mr") is not None:
+            from .c10 import resolve_max_read
+
+            mr, lim = resolve_max_read({"mr": case["mr"], "sr": sr})
+            if mr is not None:
+                rkw["max_read"] = mr
+                vis = data[: lim * sw * ch]
+        recd = auditok.Recorder(data, block_dur=aw, sampling_rate=sr, sample_width=sw, channels=ch, **rkw)
+        # passes: None = a complete split; k = a split abandoned after k regions (the first pass is always complete:
+        # what a recorder replays is what was read before the first rewind)
+        passes = [None] + list(case.get("passes") or [None] * (case["times"] - 1))
+        pending = None
+        for k in passes:
+            g = auditok.split(recd, **kw)
+            if pending is not None:
+                # the abandoned generator of the previous pass goes away only now, after the next split was asked for
+                pending = None
+                import gc
+
+                gc.collect()
+            if k is None:
+                runs.append(list(g))
+            else:
+                for _ in range(k):
+                    if next(g, None) is None:
+                        break
+                extra.add("recorder_pass_abandoned")
+                if case.get("late_drop"):
+                    pending = g
+                    extra.add("abandoned_generator_finalised_after_next_split")
+                del g
             recd.rewind()
-        if recd.data != data:
+        if recd.data != vis:
             raise Violation("recorder data differs from the audio read", case)
+        data = vis
     else:
         raise HarnessError(how)
     sig = [[(round(x.start * sr), bytes(x)) for x in run] for run in runs]
-    rec.note(case, bool(sig[0]), {"split_" + how}, out=[[s, len(d)] for s, d in sig[0]])
+    rec.note(case, bool(sig[0]), {"split_" + how} | extra, out=[[s, len(d)] for s, d in sig[0]])
     for i, s in enumerate(sig[1:], 1):
         if s != sig[0]:
             raise Violation(
@@ -290,6 +323,9 @@ def explicit_cases():
         {"t": "split", "audio": a, "win": [2, 4, 1, False, False], "how": "region", "times": 3},
         {"t": "split", "audio": a, "win": [2, 4, 1, True, False], "how": "bytes", "times": 2},
         {"t": "split", "audio": a, "win": [1, 3, 0, False, True], "how": "recorder", "times": 4},
+        {"t": "split", "audio": a, "win": [1, 3, 0, False, False], "how": "recorder", "times": 4, "passes": [None, 1, None, None], "mr": [23, 0]},
+        {"t": "split", "audio": a, "win": [1, 3, 0, False, False], "how": "recorder", "times": 4, "passes": [1, None, 0, None], "late_drop": True},
+        {"t": "split", "audio": a, "win": [2, 4, 1, False, False], "how": "recorder", "times": 3, "passes": [2, None], "mr": [20, 0.5], "late_drop": True},
         {"t": "val", "sw": 2, "ch": 2, "uc": "mix", "thr": 40.0, "history": [[4, 1, 1], [4, 2, 0]], "x": [3, 5, 1]},
         {"t": "val", "sw": 2, "ch": 1, "uc": None, "thr": 40.0, "history": [[4, 1, 1], [4, 2, 0]], "x": [4, 5, 1], "reuse_buffer": True},
         {"t": "val", "sw": 1, "ch": 1, "uc": None, "thr": 20.0, "history": [[6, 1, 0]], "x": [6, 5, 1], "reuse_buffer": True},
@@ -310,8 +346,14 @@ def strategy(draw):
                 "kind": draw(st.sampled_from(tok.KINDS)), "deliv": draw(st.sampled_from(tok.DELIVS))}
     if t == "split":
         c = draw(audio.audio_case(maxwin=20, maxB=6))
-        return {"t": "split", "audio": c["audio"], "win": c["win"], "how": draw(st.sampled_from(["region", "bytes", "recorder"])),
-                "times": draw(st.integers(2, 4))}
+        out = {"t": "split", "audio": c["audio"], "win": c["win"], "how": draw(st.sampled_from(["region", "bytes", "recorder", "recorder"])),
+               "times": draw(st.integers(2, 4))}
+        if out["how"] == "recorder" and draw(st.booleans()):
+            out["passes"] = draw(st.lists(st.one_of(st.none(), st.integers(0, 3)), min_size=1, max_size=4))
+            out["late_drop"] = draw(st.booleans())
+            nsamp = len(c["audio"]["pat"]) * c["audio"]["B"] + c["audio"]["tail"][0]
+            out["mr"] = draw(st.one_of(st.none(), st.tuples(st.integers(1, nsamp + 2), st.sampled_from([0, 0.5])).map(list)))
+        return out
     if t == "val":
         sw = draw(st.sampled_from([1, 2, 4]))
         ch = draw(st.integers(1, 3))
